@@ -114,7 +114,7 @@ fn run_driver<E: Engine>(e: &E, tier: Tier) -> i32 {
     }
     println!("acbsim: property={} engine={} tier={} VERIF_SEED={} workers={} scenarios={} soft_deadline={}s", e.property(), e.engine_name(), tier.name(), seed, nw, count, soft);
     let exe = std::env::current_exe().expect("current_exe");
-    let run_dir = format!("/verif/target/runs/{}-{}-{}", e.property(), tier.name(), std::process::id());
+    let run_dir = format!("{}/.runs/{}-{}-{}", if out_dir() == "/verif" { "/verif/target".to_string() } else { out_dir() }, e.property(), tier.name(), std::process::id());
     let _ = std::fs::remove_dir_all(&run_dir);
     std::fs::create_dir_all(&run_dir).expect("create run dir");
     let mut children = vec![];
@@ -198,8 +198,8 @@ fn run_driver<E: Engine>(e: &E, tier: Tier) -> i32 {
     }
     let wall = start.elapsed().as_secs_f64();
     let ev = evidence_json(e, tier, seed, &total, wall, nw, new_violations.len(), known_seen);
-    let _ = std::fs::create_dir_all("/verif/evidence");
-    let ev_path = format!("/verif/evidence/{}.json", e.property());
+    let _ = std::fs::create_dir_all(format!("{}/evidence", out_dir()));
+    let ev_path = format!("{}/evidence/{}.json", out_dir(), e.property());
     std::fs::write(&ev_path, serde_json::to_string_pretty(&ev).unwrap()).expect("write evidence");
     println!(
         "acbsim: {} scenarios, {} simulated processes, {} distinct non-trivial, {} abstract states, audit {}/{} mismatches, {:.1}s",
